@@ -11,8 +11,27 @@ var ReqKinds = []string{"object", "bool", "vecint", "veclong", "vecobj"}
 func NewResumed(s Source) *Scenario {
 	sc := &Scenario{Kind: "rpc", RPC: &RPCSpec{}}
 	key := s.Bytes("authkey", 256)
-	sc.Resume = &Resume{AuthKey: key, Salt: int64(binary.LittleEndian.Uint64(s.Bytes("salt", 8)))}
+	sc.Resume = &Resume{AuthKey: key, Salt: int64(binary.LittleEndian.Uint64(s.Bytes("salt", 8))), NoHash: s.Int("stored-without-key-id", 4) == 0}
 	return sc
+}
+
+// NewSession is NewResumed, or - one time in four - a client without a stored session: it goes through the key
+// exchange in this process first (small factors: the exchange itself is C06's business), and the calls follow.
+func NewSession(s Source) *Scenario {
+	if s.Int("fresh-session", 4) != 0 {
+		return NewResumed(s)
+	}
+	keys, err := KeyPool()
+	if err != nil {
+		return NewResumed(s)
+	}
+	hs, err := BuildHandshake(s, keys, Corner{}, false)
+	if err != nil {
+		return NewResumed(s)
+	}
+	hs.HS.P, hs.HS.Q = 1000003, 1000033
+	hs.HS.Splits = nil
+	return &Scenario{Kind: "rpc", RSA: hs.RSA, HS: hs.HS, RPC: &RPCSpec{Fresh: true}}
 }
 
 // Callers draws n caller goroutines with 1..maxReqs requests each; tags are unique and start at base.
